@@ -33,7 +33,7 @@ def run(pid, ck=None, extra_args=()):
     ck.counters["distinct_nontrivial"] = ck.counters.get("states", 0)
     if own:
         ck.finish(RULES[pid] + "; a state = one (A, covariance layout) configuration, a transition = one solver run on it; non-trivial = every configuration (all have >=1 row)",
-                  assumptions=["integer design matrices with entries in {-2..2}, n<=%s unknowns; reals outside the lattice are not covered" % ("4" if ck.tier == "thorough" else "3"),
+                  assumptions=["integer design matrices with entries in {-2..2}, n<=4 unknowns, m<=%s rows; reals outside the lattice are not covered" % ("5 (reduced covariance layouts for n=4,m=5)" if ck.tier == "thorough" else "4 (3 for n=4)"),
                                "tolerance 1e-8 * scale; reference P, N, null space computed by the harness (long double / exact integers)"])
     return ck
 
